@@ -16,8 +16,8 @@ const pSDK = "github.com/conduitio/conduit-processor-sdk"
 
 func init() {
 	register(&Property{
-		ID:  "C08",
-		Run: runC08,
+		ID:          "C08",
+		Run:         runC08,
 		Explanation: "Decides the structural clauses of exact record accounting: (R1) the parallel arrays of funnel.Batch stay aligned — whoever re-assigns one re-assigns all, every constructor sets them together, sub-batches and clones never alias the parent's backing arrays; (R2) index-shifting marks (Filter/SplitRecord/Nack/SetRecords/Retry) are applied end→start (descending induction variable); (R4 = C04.R4) the tainted loop's span is captured before any task can grow the sub-batch; (R5) the v1 processor node forwards a record only on the position-unchanged edge; (R6) every type switch over the sealed ProcessedRecord interface covers all its implementors and nil or refuses in default; (R7 = C01.R7) split runs are withheld until complete; (R8) every position slice that reaches Source.Ack in v2 comes from originalBatch() and the split run is keyed on Batch.positions.",
 		NotDecided:  []string{"the index arithmetic itself (activeRecordIndices, findTo, SetRecords, setFlag*) — run-time values", "what a later stage does to an already filtered record beyond the flag bookkeeping"},
 		Assumptions: []string{"slices.Clone/Clip and three-index slices cap capacity as documented"},
@@ -33,6 +33,42 @@ func runC08(c *Ctx) {
 	c01R7(c)
 	c08R8(c)
 	c08R9(c)
+	c08R10(c)
+}
+
+// c08R10: a condition error takes the slot of the record it belongs to.
+func c08R10(c *Ctx) {
+	r := c.R.Rule("R10", "K3 condition error stays with its record: in RunnableProcessor.Process no record is evaluated after a condition evaluation failed (the single error result appended after the kept/passthrough prefix then sits at the failing record's index)", 2)
+	fn := c.SSA(r, pProc, "(*RunnableProcessor).Process")
+	if fn == nil {
+		return
+	}
+	evals := kit.CallsTo(fn, Set(c.Fn(r, pProc, "(*processorCondition).Evaluate")))
+	if len(evals) == 0 {
+		c.R.Fail(r, "RunnableProcessor.Process: condition evaluation", c.Pos(fn.Pos()), "no cond.Evaluate call found")
+		return
+	}
+	nErr := 0
+	for _, b := range fn.Blocks {
+		for _, in := range b.Instrs {
+			if mi, ok := in.(*ssa.MakeInterface); ok && strings.HasSuffix(mi.X.Type().String(), "ErrorRecord") {
+				nErr++
+			}
+		}
+	}
+	for _, ev := range evals {
+		fe := kit.FailEdges(ev)
+		c.R.Check(len(fe) > 0, r, "RunnableProcessor.Process: condition error is tested", c.Pos(ev.Pos()), "ok", "the error of cond.Evaluate is not tested", true)
+		bad := false
+		for _, e := range fe {
+			for _, ev2 := range evals {
+				if kit.EdgeReaches(e, ev2, nil) {
+					bad = true
+				}
+			}
+		}
+		c.R.Check(!bad, r, "RunnableProcessor.Process: evaluation stops at the first condition error", c.Pos(ev.Pos()), "no Evaluate reachable from the failure edge", "after a failed condition evaluation later records are still evaluated: the single error result appended at the end no longer sits at the failing record's index, so another record receives the error and the failing one is acked", true)
+	}
 }
 
 func c08Lockstep(c *Ctx, r string) {
@@ -153,6 +189,14 @@ func c08Lockstep(c *Ctx, r string) {
 					alias = true
 				}
 				c.R.Check(!alias, r, "Batch.clone: "+n+" does not alias the original at full capacity", c.Pos(st.Pos()), "fresh/clipped copy", "Batch.clone stores the original's "+n+" slice itself: branches of a fan-out then overwrite each other's entries", true)
+			}
+		}
+		// K8 field coverage: a clone carries every field of the batch (a field left at its zero value —
+		// filterCount, tainted — makes the copy disagree with its own records/statuses)
+		if st, ok := batchT.Underlying().(*types.Struct); ok {
+			for i := 0; i < st.NumFields(); i++ {
+				f := st.Field(i)
+				c.R.Check(len(kit.FieldStores(cl, f)) > 0, r, "Batch.clone: carries "+f.Name(), c.Pos(cl.Pos()), "set", "Batch.clone does not copy Batch."+f.Name()+": the branches of a fan-out see a batch whose "+f.Name()+" disagrees with its records and statuses", false)
 			}
 		}
 		// splitRecords deep-copied
